@@ -173,7 +173,13 @@ def _verify_alternative(registry, repo, contract, mod, fnode, cnode, names, comb
             fin = o.st
             pst = State(dict(pre_env), fin.pc, [], mod, cnode)
             pst.env["__pre__"] = pre_env
+            pst.env["__final__"] = fin.env
+            if "__axioms__" in fin.env:
+                pst.env["__axioms__"] = fin.env["__axioms__"]
             pst.trace = fin.trace
+            pst.tagmap = fin.tagmap
+            for lem in contract.raise_lemmas:
+                pst.assume(registry.eval_clause(interp, pst, lem))
             matched = False
             for exc, cond in contract.raises.items():
                 if exc_is_subclass(o.exc, exc):
